@@ -17,6 +17,18 @@ CHECKS = {
         technique="Lean 4 proof (structural induction over trees) + model/implementation correspondence",
         design="6 C18"),
 }
+CHECKS["C04"] = dict(
+    text="Lean 4 theorems: the XML element codec (_to_element/_from_element) is inverse on every tree satisfying the dict "
+         "invariant (bool/int/float/str/null kept apart, '' vs null, [] vs {} vs null, nesting, key sets) by mutual structural "
+         "induction, including int(str(i)) = i proved for the modelled int text functions; root tag check; YAML root-key "
+         "wrap/unwrap inverse for every root key; registry resolution and the Bool token tables are `decide` obligations over "
+         "tables regenerated from the source on every run. Correspondence: element-level encode and decode (mutated elements) "
+         "through the real code and the model; document-level round trips in all five formats x options as a direct oracle.",
+    note="Text layers (json, PyYAML, bson, pickle, ElementTree+minidom+expat) are third-party: hypothesis Codec.Law, explored only. "
+         "float text (str/float) is CPython's: hypothesis FloatText.Lawful. String primitives (lower, strip, int grammar) are "
+         "hand-written models on a model alphabet, validated by the correspondence.",
+    technique="Lean 4 proof (mutual structural induction; decide over generated tables) + model/implementation correspondence",
+    design="6 C04")
 PENDING = ["C01", "C02", "C03", "C04", "C05", "C06", "C07", "C08", "C09", "C10", "C11", "C12", "C13", "C14", "C15", "C16",
            "C17", "C19", "C20"]
 
@@ -37,7 +49,7 @@ def main():
         })
     m = {
         "version": 1,
-        "setup_cmd": "cd lean/Cinco && lake build Cinco driver",
+        "setup_cmd": "/venv/bin/python -B harness/extract.py > /dev/null && cd lean/Cinco && lake build Cinco driver",
         "hooks": {
             "guard": "AMEILY_CINCOCONFIG_VERIF",
             "enable": "no hooks: every observation is made through the public API, private attribute reads and harness-side "
